@@ -114,6 +114,14 @@ CLAIMS = {
             "reports, one open exchange per remote, eventual drain). Bounded model-based symbolic exploration, not a proof.",
             "SimLoop; fake token manager / message interface; 2 remotes; MAX_RETRANSMIT=1; reference model written from the property text",
             TECH_E1, "DESIGN.md 5 C14"),
+    "C05": ("The real BlockwiseRequest talks to an independent RFC 7959 reference server at the RequestInterface boundary that "
+            "validates every request on the wire (contiguous offsets, NUM x size = offset, more-flag exactly on non-final blocks, "
+            "exponent never growing) and reassembles the request body; request/response body lengths (index over values around "
+            "every block boundary), server/client exponents, the point and depth of a mid-transfer size reduction and 8 kinds of "
+            "server misbehaviour are chosen by symbolic index; bodies are compared byte for byte and misbehaviour must end in an "
+            "aiocoap Error. Kernels _extract_block, BlockwiseTuple arithmetic and _generate_next_block2_request with symbolic ints.",
+            "reference server (vf/props/c05.py RefServer) written from RFC 7959; SimLoop; per-block loss is the message layer's; BERT outside",
+            TECH_E1, "DESIGN.md 5 C05"),
     "C06": ("Inductive step on the real Resource.render_to_pipe / Block1Spool / Block2Cache / TimeoutDict: from every pre-state (three "
             "assemblies for endpoint/method/key combinations - incl. two endpoints that differ only in port - each absent, 1 or 2 "
             "blocks long, built through the real API) one (thorough: two) block request with symbolic (selector, NUM, M, length "
